@@ -15,6 +15,20 @@ import traceback
 from .base import HarnessError, InvalidPlan, canon, run_seed
 from . import minimise as _min
 
+
+def _safe_print(*args, **kw):
+    """The simulator's own output never fails on a stream that only takes ASCII (interpreter flag 'A')."""
+    import builtins
+    import sys as _sys
+    enc = (getattr(kw.get('file') or _sys.stdout, 'encoding', None) or 'utf-8').lower()
+    if enc.replace('-', '').replace('_', '') in ('ascii', 'usascii', 'ansix3.41968', '646'):
+        args = [str(a).encode('ascii', 'backslashreplace').decode('ascii') for a in args]
+    builtins.print(*args, **kw)
+
+
+print = _safe_print
+
+
 VERIF = os.path.dirname(os.path.dirname(os.path.dirname(os.path.abspath(__file__))))
 REPO = os.path.abspath(os.environ.get('VERIF_REPO', '/repo'))
 DEFAULT_SEED = 20261001
@@ -211,12 +225,17 @@ def load_findings(path=None):
 # ---------------------------------------------------------------------------
 # replay
 
+def _interp_flags():
+    flags = ('O' if sys.flags.optimize else '') + ('A' if (os.environ.get('PYTHONIOENCODING') or '').lower().startswith('ascii') else '')
+    return (':' + flags) if flags else ''
+
+
 def write_replay(check, plan, violation, digest, meta):
     os.makedirs(os.path.join(VERIF, 'replays'), exist_ok=True)
     kh = hashlib.sha1(violation['key'].encode()).hexdigest()[:8]
     path = os.path.join(VERIF, 'replays', '%s-%s-%s.json' % (check.id, kh, plan.get('seed', 'x')))
     doc = {'format': 1, 'property': check.id, 'world': check.world, 'seed': plan.get('seed'),
-           'hashseed': os.environ.get('PYTHONHASHSEED', '') + (':O' if sys.flags.optimize else ''), 'plan': plan, 'violation': violation,
+           'hashseed': os.environ.get('PYTHONHASHSEED', '') + _interp_flags(), 'plan': plan, 'violation': violation,
            'digest': digest, 'clastic_tree_sha': tree_sha()}
     doc.update(meta)
     with open(path, 'w') as f:
@@ -326,7 +345,7 @@ def run_check(pid, tier, base_seed, nproc=None, max_runs=None, write_evidence=Tr
     else:
         step = max(1, len(jobs) // hs_n)
         hs_jobs = jobs[::step][:hs_n]
-    hs_seeds = getattr(check, 'hashseeds', {'quick': ['1:O'], 'thorough': ['1:O', 2]})[tier]
+    hs_seeds = getattr(check, 'hashseeds', {'quick': ['1:OA'], 'thorough': ['1:OA', 2]})[tier]
     hs_procs = []
     for hs in hs_seeds:
         env = _child_env(hs)
